@@ -99,3 +99,161 @@ class SendData:
         return True
 
     loops = {1: Loop(a=inv_outer, modifies=["self._sock.wire"]), 2: Loop(a=inv_select)}
+
+
+# =============================================================================================== HSMS send queue (O58)
+from secsgem.common.block_send_info import BlockSendInfo  # noqa: E402
+from secsgem.common.connection import Connection  # noqa: E402
+from secsgem.hsms.protocol import HsmsProtocol  # noqa: E402
+from spec.ext import AbsQueue  # noqa: E402
+
+MIB = 1024 * 1024
+
+
+@contract("spec.ext:AbsQueue.empty", "C10", name="SendQueueEmptyAbs10")
+class SendQueueEmptyAbs10:
+    """ASSUMED (A-EXT): ghost view of the send queue; other threads may add blocks."""
+
+    abstract = True
+    modifies = {"self.g_pending": Int}
+    returns = Bool
+
+    def ensures(self, old, result):
+        return self.g_pending >= old.self.g_pending and self.g_pending >= 0 and result == (self.g_pending == 0)
+
+
+@contract("spec.ext:AbsQueue.get", "C10", name="SendQueueGetAbs10")
+class SendQueueGetAbs10:
+    """ASSUMED (A-EXT), with the call-site obligation that a block is pending (the sender never parks in get()).  The block
+    is any frame of 1 byte .. 3 MiB (bounded shape: the chunk list is unrolled; larger frames: bounded pass)."""
+
+    abstract = True
+    modifies = {"self.g_pending": Int}
+    returns = Obj(BlockSendInfo, _data=Bytes(min_len=1, max_len=3 * MIB), g_owner=Same("self.g_owner"), g_resolved=Const(False))
+
+    def requires(self):
+        return self.g_pending >= 1
+
+    def ensures(self, old):
+        return self.g_pending == old.self.g_pending - 1
+
+
+@contract("secsgem.common.connection:Connection.send_data", "C10", name="SendDataUse")
+class SendDataUse:
+    """The contract proved for TcpConnection.send_data above (SendData), as seen by its caller: True only after all bytes
+    were appended to the wire in order; False after any prefix."""
+
+    abstract = True
+    modifies = {"self.g_wire": ByteArray(), "self.g_last_ok": Bool}
+    returns = Bool
+
+    def ensures(self, data, old, result):
+        n0 = len(old.self.g_wire)
+        w = self.g_wire
+        return (self.g_last_ok == result and n0 <= len(w) and len(w) <= n0 + len(data)
+                and forall(0, n0, lambda t: w[t] == old.self.g_wire[t])
+                and forall(n0, len(w), lambda u: w[u] == data[u - n0])
+                and implies(result, lambda: len(w) == n0 + len(data)))
+
+
+@contract("secsgem.common.block_send_info:BlockSendInfo.resolve", "C10", name="ResolveAbs10")
+class ResolveAbs10:
+    """Call-out contract: a block is resolved once; with success only when the last transport call succeeded and the wire
+    ends with exactly the block's bytes (all chunks, in order, once); with failure right after a failed transport call."""
+
+    abstract = True
+    modifies = {"self.g_resolved": Bool}
+
+    def requires(self, result):
+        c = self.g_owner._Protocol__connection
+        w = c.g_wire
+        n = len(self._data)
+        return (not self.g_resolved and result == c.g_last_ok
+                and implies(result, lambda: len(w) >= n and forall(len(w) - n, len(w), lambda u: w[u] == self._data[u - (len(w) - n)])))
+
+    def ensures(self):
+        return self.g_resolved
+
+
+@contract("secsgem.hsms.protocol:HsmsProtocol._process_send_queue", "C10")
+class ProcessSendQueue:
+    """O58: every queued frame is handed to the transport in 1 MiB chunks, in order; it is resolved with success exactly
+    after all its chunks were accepted (the wire then ends with the frame's bytes) and with failure at the first refused
+    chunk, after which the loop stops; the sender never parks in get()."""
+
+    cases = None
+    uses = [SendQueueEmptyAbs10, SendQueueGetAbs10, SendDataUse, ResolveAbs10]
+
+    def inputs():
+        return {"self": Obj(HsmsProtocol,
+                            _send_queue=Obj(AbsQueue, g_pending=Int(0, None), g_owner=Root()),
+                            _Protocol__connection=Obj(Connection, g_wire=ByteArray(), g_last_ok=Bool))}
+
+    def raises():
+        return {}
+
+    def ensures(self, old):
+        w, w0 = self._Protocol__connection.g_wire, old.self._Protocol__connection.g_wire
+        return {"wire-only-grows": len(w) >= len(w0) and forall(0, len(w0), lambda t: w[t] == w0[t])}
+
+    def inv_pending(self, old):
+        return self._send_queue.g_pending >= 0
+
+    def inv_wire(self, old):
+        w, w0 = self._Protocol__connection.g_wire, old.self._Protocol__connection.g_wire
+        return len(w) >= len(w0) and forall(0, len(w0), lambda t: w[t] == w0[t])
+
+    loops = {1: Loop(pending=inv_pending, wire=inv_wire,
+                     modifies=["self._send_queue.g_pending", "self._Protocol__connection.g_wire", "self._Protocol__connection.g_last_ok"])}
+
+    def replay(case, name, model):
+        """Native demonstration: the real loop on a real queue of frames of 1 B, 1 MiB, 1 MiB + 1 and 2.5 MiB with a recording
+        transport (all chunks accepted), then with a transport that refuses the second chunk."""
+        import logging
+        import queue as _queue
+        logging.disable(logging.CRITICAL)
+        failed, seen = [], []
+
+        class Conn:
+            def __init__(self, fail_at=None):
+                self.wire, self.calls, self.fail_at = bytearray(), 0, fail_at
+
+            def send_data(self, data):
+                self.calls += 1
+                if self.fail_at is not None and self.calls >= self.fail_at:
+                    return False
+                self.wire += data
+                return True
+
+        for fail_at in (None, 2):
+            proto = object.__new__(HsmsProtocol)
+            null = logging.getLogger("verif.null")
+            proto._logger = proto._communication_logger = null
+            proto._Protocol__connection = Conn(fail_at)
+            proto._send_queue = _queue.Queue()
+            frames = [bytes([7]), bytes(range(256)) * 4096, bytes(range(256)) * 4096 + b"\x01", (bytes(range(251)) * 10444)[:2 * MIB + MIB // 2]]
+            if fail_at:
+                frames = frames[3:] + frames[:1]
+            infos = [BlockSendInfo(f) for f in frames]
+            for b in infos:
+                proto._send_queue.put(b)
+            try:
+                proto._process_send_queue()
+            except Exception as exc:  # noqa
+                failed.append(f"raised {type(exc).__name__}: {exc}")
+            got = [b._result.name for b in infos]
+            wire = bytes(proto._Protocol__connection.wire)
+            seen.append({"transport_fails_at_call": fail_at, "results": got, "wire_bytes": len(wire)})
+            if fail_at is None:
+                if got != ["SENT_OK"] * 4:
+                    failed.append(f"all chunks accepted but results {got}")
+                if wire != b"".join(frames):
+                    failed.append(f"wire ({len(wire)} bytes) is not the concatenation of the frames ({sum(map(len, frames))} bytes) in order")
+            else:
+                if got[0] != "SENT_ERROR":
+                    failed.append(f"second chunk refused but the frame was resolved {got[0]}")
+                if got[1] != "NOT_SENT":
+                    failed.append(f"the loop went on after a refused chunk: {got}")
+                if wire != frames[0][:MIB]:
+                    failed.append("wire after the refused chunk is not exactly the first chunk")
+        return {"status": "confirmed" if failed else "spurious", "failed_clauses": failed, "inputs": {"frames": "1 B, 1 MiB, 1 MiB + 1, 2.5 MiB"}, "observed": seen}
